@@ -15,8 +15,9 @@ RING = 500
 TRACE_RE = re.compile(r"^\[([^\]]*)\] \[([^\]]*)\] e->(.*)\(\) (.*)->(.*)$")
 
 KINDS = ("post_fifo", "post_fifo", "post_lifo", "next_rtc", "next_rtc", "next_rtc",
-         "complete_circuit", "defer", "recall")
-ACTION_KINDS = ("post_fifo", "post_lifo", "defer", "defer_e", "recall", "scribble", "scribble")
+         "complete_circuit", "defer", "recall", "query")
+ACTION_KINDS = ("post_fifo", "post_lifo", "defer", "defer_e", "recall", "scribble", "scribble",
+                "is_in", "current_state")      # the last two: handlers that query the chart
 
 
 def history(tier):
@@ -105,8 +106,9 @@ class Desync(Exception):
 class Run:
   """Executes a history and yields per-op observations plus expectations."""
 
-  def __init__(self, case, live_spy=False, live_trace=False, clock=None, host=None):
+  def __init__(self, case, live_spy=False, live_trace=False, clock=None, host=None, reactive=False):
     self.host = host
+    self.reactive = reactive
     from miros.event import return_status
     self.HANDLED = return_status.HANDLED
     self.case = case
@@ -118,7 +120,15 @@ class Run:
       rt.keep_raw = True
       chart.live_spy = live_spy
       chart.live_trace = live_trace
-      chart.register_live_spy_callback(self.spy_out.append)
+      if self.reactive:
+        # a callback that reacts to what it is shown by writing to the chart's spy
+        def reacting(line, chart=chart):
+          self.spy_out.append(line)
+          if line.startswith(("ENTRY_SIGNAL", "EXIT_SIGNAL")):
+            chart.scribble("vfseen")
+        chart.register_live_spy_callback(reacting)
+      else:
+        chart.register_live_spy_callback(self.spy_out.append)
       chart.register_live_trace_callback(self.trace_out.append)
     self.real = queued.RealQueued(case, budget=budget, decorate=True, setup=setup, host=host)
     rt = self.real.rt
@@ -233,6 +243,9 @@ class Run:
         return "desync"
       return o, steps
     if k in ("next_rtc", "complete_circuit") and not m.d.q:
+      return None
+    if k in ("is_in", "child_state"):
+      self.real.apply(op)
       return None
     nact = len(m.actlog)
     results = []
